@@ -75,6 +75,12 @@ Theorem C06_listing_free : forall c c', same_listing c c' ->
             cal_is_weekday c d = cal_is_weekday c' d /\ cal_is_settle c d = cal_is_settle c' d.
 Proof. exact cal_pred_listing_free. Qed.
 
+(* ... and a combined calendar sees its member lists only through membership (same_members: the same member calendars
+   and the same settlement calendars, in any order, with any repetitions) *)
+Theorem C06_members_free : forall u u', same_members u u' ->
+  forall d, ucal_is_bus u d = ucal_is_bus u' d /\ ucal_is_settle u d = ucal_is_settle u' d.
+Proof. exact ucal_members_free. Qed.
+
 (* the supported range is 1970-01-01 .. 2200-12-31 *)
 Example C06_range : days_from_civil 1970 1 1 = d1970 /\ days_from_civil 2200 12 31 = d2200.
 Proof. vm_compute. auto. Qed.
